@@ -23,7 +23,7 @@ func createDynForEMAThroughputSampler(c *config.EMAThroughputSamplerConfig) *dyn
 	dynsamplerInstance := &dynsampler.EMAThroughput{
 		GoalThroughputPerSec: c.GoalThroughputPerSec / clusterSize,
 		InitialSampleRate:    c.InitialSampleRate,
-		AdjustmentInterval:   time.Duration(c.AdjustmentInterval),
+		AdjustmentInterval:   max(time.Duration(c.AdjustmentInterval), 0), // 0 selects the default; a negative duration would panic in time.NewTicker
 		Weight:               c.Weight,
 		AgeOutValue:          c.AgeOutValue,
 		BurstDetectionDelay:  c.BurstDetectionDelay,
